@@ -178,7 +178,9 @@ func startedBefore(a, b *crec) bool {
 
 type hist struct {
 	idx      int
-	pl       concPlan
+	pre      string // signature/counter prefix: "conc" or "resetrace"
+	desc     string
+	maxTTL   int64
 	recs     []*crec
 	sets     map[string][]*crec // per key
 	writers  map[string][]*crec // per key: set, del (resets are kept apart)
@@ -191,8 +193,8 @@ type hist struct {
 
 func (h *hist) exp(s *crec) time.Duration {
 	ttl := s.ttl
-	if h.pl.maxTTL > 0 && ttl > h.pl.maxTTL {
-		ttl = h.pl.maxTTL
+	if h.maxTTL > 0 && ttl > h.maxTTL {
+		ttl = h.maxTTL
 	}
 	return s.t + time.Duration(ttl)*sec
 }
@@ -210,7 +212,7 @@ func (h *hist) violation(sig, msg string) {
 		return
 	}
 	h.viol = true
-	rec.Violation(h.idx, sig, msg, map[string]any{"plan": h.pl.String(), "events": h.dump()})
+	rec.Violation(h.idx, sig, msg, map[string]any{"plan": h.desc, "events": h.dump()})
 }
 
 // forWriters calls f for every Set/Delete on key and every Reset.
@@ -247,13 +249,13 @@ func (h *hist) judgeHit(g *crec) {
 	s := h.byVal[g.got]
 	switch {
 	case s == nil:
-		h.violation("conc/get/value-never-stored", fmt.Sprintf("%v returned a value no Set ever stored", g))
+		h.violation(h.pre+"/get/value-never-stored", fmt.Sprintf("%v returned a value no Set ever stored", g))
 		return
 	case s.key != g.key:
-		h.violation("conc/get/value-of-other-key", fmt.Sprintf("%v returned the value of %v", g, s))
+		h.violation(h.pre+"/get/value-of-other-key", fmt.Sprintf("%v returned the value of %v", g, s))
 		return
 	case !startedBefore(s, g):
-		h.violation("conc/get/value-from-the-future", fmt.Sprintf("%v returned the value of %v, which was called after the Get returned", g, s))
+		h.violation(h.pre+"/get/value-from-the-future", fmt.Sprintf("%v returned the value of %v, which was called after the Get returned", g, s))
 		return
 	}
 	if e := h.exp(s); g.t >= e {
@@ -261,23 +263,23 @@ func (h *hist) judgeHit(g *crec) {
 		if g.t == e {
 			shape = "exactly-at-expiry"
 		}
-		if h.pl.maxTTL > 0 && s.ttl > h.pl.maxTTL {
+		if h.maxTTL > 0 && s.ttl > h.maxTTL {
 			shape += "/ttl-above-maxttl"
 		}
-		h.violation("conc/get/expired-value/"+shape, fmt.Sprintf("%v returned the value of %v, which expired at %v", g, s, e))
+		h.violation(h.pre+"/get/expired-value/"+shape, fmt.Sprintf("%v returned the value of %v, which expired at %v", g, s, e))
 		return
 	}
 	if x := h.supersededBefore(g.key, s, g, false); x != nil {
 		shape := map[string]string{"set": "superseded-value", "del": "hit-after-delete", "reset": "hit-after-reset"}[x.kind]
-		h.violation("conc/get/"+shape+"/"+h.raceContext(g, false), fmt.Sprintf("%v returned the value of %v although %v lies entirely between them", g, s, x))
+		h.violation(h.pre+"/get/"+shape+"/"+h.raceContext(g, false), fmt.Sprintf("%v returned the value of %v although %v lies entirely between them", g, s, x))
 		return
 	}
-	rec.Count("conc.get.hit", 1)
+	rec.Count(h.pre+".get.hit", 1)
 	if h.cold[g.key] {
-		rec.Count("conc.untouched.live_hits", 1)
+		rec.Count(h.pre+".untouched.live_hits", 1)
 	}
 	if h.exp(s)-g.t <= grid {
-		rec.Count("conc.get.hit_in_last_instant_before_expiry", 1)
+		rec.Count(h.pre+".get.hit_in_last_instant_before_expiry", 1)
 	}
 }
 
@@ -308,7 +310,7 @@ func (h *hist) judgeMiss(g *crec) {
 		return true
 	})
 	if initial {
-		rec.Count("conc.get.miss_possibly_never_set", 1)
+		rec.Count(h.pre+".get.miss_possibly_never_set", 1)
 		return
 	}
 	// possibly-latest writers
@@ -335,9 +337,9 @@ func (h *hist) judgeMiss(g *crec) {
 		return false
 	})
 	if why != "" {
-		rec.Count("conc.get.miss_"+why, 1)
+		rec.Count(h.pre+".get.miss_"+why, 1)
 		if strings.HasPrefix(why, "expired") {
-			rec.Count("conc.get.miss_expired", 1)
+			rec.Count(h.pre+".get.miss_expired", 1)
 		}
 		return
 	}
@@ -351,7 +353,7 @@ func (h *hist) judgeMiss(g *crec) {
 			continue // a Set lies entirely after that cleanup and before the Get
 		}
 		if s0 := h.couldSeeExpired(c, key); s0 != nil {
-			rec.Count("conc.get.miss_documented_cleanup_race_tolerated", 1)
+			rec.Count(h.pre+".get.miss_documented_cleanup_race_tolerated", 1)
 			return
 		}
 	}
@@ -359,7 +361,7 @@ func (h *hist) judgeMiss(g *crec) {
 	if h.cold[key] {
 		shape = "untouched-key"
 	}
-	h.violation("conc/get/miss-live-entry/"+shape+"/"+h.raceContext(g, true), fmt.Sprintf("%v missed although every Set that can be the latest one is live and no Delete/Reset/documented cleanup race can explain it; candidates: %s", g, recList(liveSets)))
+	h.violation(h.pre+"/get/miss-live-entry/"+shape+"/"+h.raceContext(g, true), fmt.Sprintf("%v missed although every Set that can be the latest one is live and no Delete/Reset/documented cleanup race can explain it; candidates: %s", g, recList(liveSets)))
 }
 
 func overlap(a, b *crec) bool { return startedBefore(a, b) && startedBefore(b, a) }
@@ -495,18 +497,18 @@ func (h *hist) judge() (overlaps, atTick int) {
 			if ka > kb {
 				ka, kb = kb, ka
 			}
-			rec.Count("conc.overlap."+ka+"_vs_"+kb, 1)
+			rec.Count(h.pre+".overlap."+ka+"_vs_"+kb, 1)
 		}
 	}
-	rec.Count("conc.overlap.same_key_pairs", overlaps)
-	rec.Count("conc.ops_at_tick_instants", atTick)
+	rec.Count(h.pre+".overlap.same_key_pairs", overlaps)
+	rec.Count(h.pre+".ops_at_tick_instants", atTick)
 	return overlaps, atTick
 }
 
 func runConc(t *testing.T, idx int, pl concPlan) {
 	desc := pl.String()
 	rec.Begin(idx, desc)
-	h := &hist{idx: idx, pl: pl, cold: map[string]bool{}}
+	h := &hist{idx: idx, pre: "conc", desc: desc, maxTTL: pl.maxTTL, cold: map[string]bool{}}
 	for _, k := range pl.cold {
 		h.cold[k] = true
 	}
